@@ -4,6 +4,8 @@ package c15
 import (
 	"bytes"
 	"crypto/ecdsa"
+	"crypto/sha256"
+	"crypto/sha512"
 	"encoding/base64"
 	"encoding/json"
 	"fmt"
@@ -183,6 +185,59 @@ func Run(r *core.Run) {
 			r.Class("library-made-jwk")
 		}
 	}
+	// a JWK that names a point (X, 0) - on none of the curves, of order two for the doubling formulas - and a signature made from
+	// public values alone (r = x(k*G) mod n, s = e/k mod n, k = 1..16): nobody holds a key for it, so nothing verifies under it
+	for _, t := range []string{"secp256k1", "P-256", "P-384", "P-521"} {
+		t := t
+		curve := keys.Curve(t)
+		n, w := curve.Params().N, keys.Width(t)
+		hashOf := func(b []byte) []byte {
+			switch t {
+			case "P-384":
+				h := sha512.Sum384(b)
+				return h[:]
+			case "P-521":
+				h := sha512.Sum512(b)
+				return h[:]
+			}
+			h := sha256.Sum256(b)
+			return h[:]
+		}
+		for xi, x := range []*big.Int{big.NewInt(1), big.NewInt(5), new(big.Int).Set(keys.New(t, 0).EC.X)} {
+			jwk := map[string]any{"kty": "EC", "crv": t, "x": enc.EncodeToString(x.FillBytes(make([]byte, w))), "y": enc.EncodeToString(make([]byte, w))}
+			payload := []byte(`{"forged":true}`)
+			input := enc.EncodeToString(keys.New(t, 0).Header()) + "." + enc.EncodeToString(payload)
+			dg := hashOf([]byte(input))
+			e := new(big.Int).SetBytes(dg)
+			if excess := len(dg)*8 - n.BitLen(); excess > 0 {
+				e.Rsh(e, uint(excess))
+			}
+			for k := int64(1); k <= 16; k++ {
+				rx, _ := curve.ScalarBaseMult(big.NewInt(k).Bytes())
+				rr := new(big.Int).Mod(rx, n)
+				ss := new(big.Int).Mul(e, new(big.Int).ModInverse(big.NewInt(k), n))
+				ss.Mod(ss, n)
+				if rr.Sign() == 0 || ss.Sign() == 0 {
+					continue
+				}
+				sig := append(rr.FillBytes(make([]byte, w)), ss.FillBytes(make([]byte, w))...)
+				compact := input + "." + enc.EncodeToString(sig)
+				id := fmt.Sprintf("keyless-point/%s/x%d/k%d", t, xi, k)
+				r.Case(id, func() *core.Fail {
+					det := map[string]any{"jwk": jwk, "jws": compact}
+					if _, err := jwsutil.VerifyJWS(compact, jwkOf(jwk)); err == nil {
+						return &core.Fail{Key: "keyless-point/" + t, What: "a JWS verifies under a JWK that names a point which is not on the curve (nobody holds a key for it)", Detail: det}
+					}
+					if err := jwsutil.VerifySignature(jwkOf(jwk), sig, []byte(input)); err == nil {
+						return &core.Fail{Key: "keyless-point/" + t, What: "a signature verifies under a JWK that names a point which is not on the curve", Detail: det}
+					}
+					return nil
+				})
+				r.Observe(id)
+			}
+		}
+		r.Class("keyless-point")
+	}
 	// one signer, several signatures held at the same time: each JWS / signature made by the matching key over its own bytes must
 	// still verify (library and independent verifier) after the same signer has signed other payloads
 	for _, t := range keys.Types {
@@ -344,6 +399,45 @@ func Run(r *core.Run) {
 		for name, c := range surgery {
 			judge(base+"/"+name, c, own, false)
 		}
+		// the detached form (header..signature, payload handed over separately): verifies with the right payload only, and a string
+		// that is not made of exactly three segments is refused whatever is handed over with it
+		{
+			k, compact, payload := it.k, it.compact, it.payload
+			detached := seg[0] + ".." + seg[2]
+			id := base + "/detached"
+			r.Case(id, func() *core.Fail {
+				jwk := jwkOf(k.JWKMap())
+				det := map[string]any{"jws": compact, "detached_form": detached, "jwk": k.JWKMap()}
+				if res, err := jwsutil.VerifyJWS(detached, jwk, jwsutil.WithJWSDetachedPayload(payload)); err != nil || string(res.Payload) != string(payload) {
+					return &core.Fail{Key: "detached/" + k.Type, What: fmt.Sprintf("detached form does not verify with its payload: %v", err), Detail: det}
+				}
+				if _, err := jwsutil.VerifyJWS(detached, jwk, jwsutil.WithJWSDetachedPayload(append([]byte("x"), payload...))); err == nil {
+					return &core.Fail{Key: "detached-other-payload/" + k.Type, What: "detached form verifies with another payload", Detail: det}
+				}
+				for _, form := range [][2]string{
+					{"four-segments-empty", seg[0] + "..." + seg[2]},
+					{"four-segments-payload", seg[0] + "." + seg[1] + "." + seg[1] + "." + seg[2]},
+					{"five-segments", seg[0] + ".a.b.c." + seg[2]},
+					{"junk-between", seg[0] + "..!!junk!!." + seg[2]},
+					{"two-segments", seg[0] + "." + seg[2]},
+					{"one-segment", seg[0]},
+					{"trailing-separator", detached + "."},
+					{"leading-separator", "." + detached},
+					{"attached-and-extra-part", compact + "." + seg[2]},
+				} {
+					name, bad := form[0], form[1]
+					if _, err := jwsutil.VerifyJWS(bad, jwk, jwsutil.WithJWSDetachedPayload(payload)); err == nil {
+						return &core.Fail{Key: "detached-malformed/" + name, What: fmt.Sprintf("a string that is not a compact JWS (%s) verifies when the payload is handed over separately", name), Detail: merge(det, map[string]any{"input": bad})}
+					}
+					if _, err := jwsutil.ParseJWS(bad, jwsutil.WithJWSDetachedPayload(payload)); err == nil {
+						return &core.Fail{Key: "detached-malformed-parse/" + name, What: fmt.Sprintf("a string that is not a compact JWS (%s) parses when the payload is handed over separately", name), Detail: merge(det, map[string]any{"input": bad})}
+					}
+				}
+				return nil
+			})
+			r.Observe(id)
+			r.Class("detached")
+		}
 		// protected-header surgery on the decoded JSON: a member added (with an empty, ordinary, null, numeric, boolean and structured
 		// value), at either end: the decoded header content changes
 		{
@@ -382,4 +476,15 @@ func Run(r *core.Run) {
 	_ = ecdsa.PublicKey{}
 	r.Require("short-r", 3)
 	r.Require("short-s", 3)
+}
+
+func merge(a, b map[string]any) map[string]any {
+	out := map[string]any{}
+	for k, v := range a {
+		out[k] = v
+	}
+	for k, v := range b {
+		out[k] = v
+	}
+	return out
 }
